@@ -27,7 +27,7 @@ fn strategies(thorough: bool) -> Vec<MachineInitStrategy> {
     v
 }
 #[derive(Clone, Copy, Debug)]
-struct Cfg { strat: MachineInitStrategy, range: u8, tseed: u64, prog: usize, kb: u8, flags: u8 }
+struct Cfg { strat: MachineInitStrategy, range: u8, tseed: u64, prog: usize, kb: u8, flags: u8, /** scale: 50000 steps (tens of thousands of timer intervals drawn) instead of the usual horizon */ long: bool }
 
 fn make(c: &Cfg) -> (Simulator, BufferedDisplay) {
     let mut sim = Simulator::new(SimFlags { machine_init: c.strat, use_real_traps: c.flags & 1 == 1, strict: false, debug_frames: c.flags & 2 == 2, ignore_privilege: c.prog == 5 });
@@ -52,6 +52,7 @@ fn make(c: &Cfg) -> (Simulator, BufferedDisplay) {
 
 fn check(c: &Cfg, steps: usize) -> Result<u64, (String, String)> {
     let what = format!("{c:?}");
+    let steps = if c.long { 50_000 } else { steps };
     // Nondeterminism of the subject shows up as run-to-run differences, possibly only sometimes: compare several independently
     // built simulators against the first one, so that a random tie-break or entropy source is caught (and re-caught on replay) with near certainty.
     let mut total = 0u64;
@@ -101,8 +102,9 @@ fn check_pair(c: &Cfg, steps: usize, what: &str, rep: u32) -> Result<u64, (Strin
 fn cfgs(thorough: bool) -> Vec<Cfg> {
     let mut v = vec![];
     for strat in strategies(thorough) { for range in 0..5u8 { for tseed in if thorough { vec![5u64, 9, 0, u64::MAX] } else { vec![0u64, 9] } { for prog in 0..6 { for kb in 0..if thorough { 3u8 } else { 2 } { for flags in if thorough { vec![0u8, 1, 2, 3] } else { vec![0u8, 3] } {
-        v.push(Cfg { strat, range, tseed, prog, kb, flags });
+        v.push(Cfg { strat, range, tseed, prog, kb, flags, long: false });
     } } } } } }
+    for (range, tseed) in [(2u8, 0u64), (1, 9), (2, u64::MAX)] { v.push(Cfg { strat: MachineInitStrategy::Seeded { seed: 7 }, range, tseed, prog: 1, kb: 0, flags: 0, long: true }); }
     v
 }
 pub fn run(ctx: &Ctx) -> Report {
